@@ -233,6 +233,15 @@ def check(run):
                 if f is None:
                     continue
                 holder = f.attr if isinstance(f, ast.Attribute) and isinstance(f.value, ast.Name) and f.value.id == "self" else None
+                if holder is None and isinstance(f, ast.Lambda):
+                    # a lambda that calls the callback (or a method of the imputer / storage object kept in a field)
+                    for c in ast.walk(f.body):
+                        if isinstance(c, ast.Call):
+                            g = c.func
+                            while isinstance(g, ast.Attribute) and not (isinstance(g.value, ast.Name) and g.value.id == "self"):
+                                g = g.value
+                            if isinstance(g, ast.Attribute) and isinstance(g.value, ast.Name) and g.value.id == "self":
+                                holder = holder or g.attr
                 if holder is not None and any(w in holder for w in ("model", "loss", "function", "imputer", "predict")):
                     lazy.append((path, node.lineno, ast.unparse(node)[:70], holder))
     for path, line, what, holder in lazy:
